@@ -32,7 +32,7 @@ def required_buckets(tier):
     for u in ('L', 'g', 'mol'):
         req.append(f'C11/fill_to/{u}/')
     req += ['C03/dilute/infeasible:above_current/refused', 'C03/dilute/infeasible:capacity/refused',
-            'C03/fill_to/L/infeasible:capacity/refused']
+            'C03/fill_to/L/infeasible:capacity/refused', 'C11/fill_to/solvent_kind/enzyme', 'C11/fill_to/solvent_kind/solid']
     return req
 
 
@@ -169,6 +169,13 @@ def constructive(rng, case, idx):
         # ---------------- fill_to
         for base in ('L', 'g', 'mol'):
             fs = rng.choice(liqs)
+            if rng.random() < 0.25:
+                # any substance may be what a container is filled up with: solids and enzymes too (where they have a
+                # measure in the unit of the target; without one it is the recorded finding KF03)
+                alt = [s_ for s_ in w.subs if R.per(s_, base) > 0 and R.per(s_, 'L') > 0]
+                if alt:
+                    fs = rng.choice(alt)
+                    M.bucket('C11/fill_to/solvent_kind/' + R.kind(fs))
             curq = R.measure(c.contents, base)
             add = curq * rng.uniform(0.05, 3) + 10 ** rng.uniform(-7, -3) * R.per(fs, base) / max(R.per(fs, 'L'), 1e-12)
             tgt = curq + add
